@@ -287,7 +287,7 @@ def afterPubrec (w : World) (a m rid t : Nat) (bs : Bytes) (initialT : Nat) : Wo
 
 theorem handlePUBREC_effect {w : World} (h : WInv w) (p : Nat) (ppr : Proto) (hpp : w.protos.get? p = some ppr)
     (hlive : ppr.lost = false) (hconn : ppr.state = .connected) (m : Nat) (hm : m < 65536) (rid : Nat)
-    (hl : Ents.lookup w.ents ppr.addr .pub m = some rid) :
+    (hl : Ents.lookup w.ents ppr.addr .pub m = some rid) (hq2 : (w.req rid).qos = 2) :
     ∃ t bs, (w.req rid).alarm = some t ∧ encodePUBREL (m : Int) = .ok bs ∧
       handlePUBREC p m w = (retryReleaseW p w.nextReq false (afterPubrec w ppr.addr m rid t bs ppr.initialT), none) := by
   have hpa : w.paddr p = ppr.addr := by simp [World.paddr, getD_of_get? hpp]
@@ -301,7 +301,7 @@ theorem handlePUBREC_effect {w : World} (h : WInv w) (p : Nat) (ppr : Proto) (hp
   unfold handlePUBREC
   generalize hE : encodePUBREL (m : Int) = E
   rw [hbs'] at hE; subst hE
-  simp only [read_apply, hpa, hl]
+  simp only [read_apply, hpa, hl, ne_eq, hq2, not_true_eq_false, ↓reduceIte]
   have s1 : cancelAlarm (w.req rid).alarm w = ({ w with timers := cancelT w t }, none) := by
     rw [ht]; exact cancelTimer_pending w t _ hpe
   rw [seq_ok s1]
